@@ -13,6 +13,8 @@ def iter_positions(fn):
 
 
 def node_at(fn, bid, i):
+    if i < 0 or i >= len(fn.blocks[bid]['elems']):
+        return None
     e = fn.blocks[bid]['elems'][i]
     return fn.nodes[e] if isinstance(e, int) else None
 
